@@ -946,8 +946,12 @@ func runCase(env *ev.Env, c Case) (o ev.Outcome) {
 				{like: true}, {delimPaging: true}, {nullLast: true},
 				{like: true, delimPaging: true}, {like: true, nullLast: true},
 				{segCP: true}, {segCP: true, delimPaging: true}, {segCP: true, like: true},
+				{like: true, likePlain: true}, {like: true, likePlain: true, delimPaging: true}, {like: true, likePlain: true, nullLast: true},
 			} {
 				if d.like && !(env.Known("c06.likePrefix") && likeActive(prefix)) {
+					continue
+				}
+				if d.likePlain && q.Delim == "" {
 					continue
 				}
 				if d.delimPaging && !(env.Known("c06.delimiterPaging") && q.Delim != "" &&
@@ -1030,7 +1034,7 @@ func gen(t *rapid.T, env *ev.Env) Case {
 	}
 
 	regime := rapid.SampledFrom([]string{"unversioned", "unversioned", "enabled", "enabled", "nullfirst", "suspended"}).Draw(t, "regime")
-	nSteps := rapid.IntRange(len(c.Keys), len(c.Keys)+25).Draw(t, "nsteps")
+	nSteps := rapid.IntRange(len(c.Keys), len(c.Keys)+16).Draw(t, "nsteps")
 	enableAt, suspendAt := -1, -1
 	switch regime {
 	case "enabled":
@@ -1063,7 +1067,7 @@ func gen(t *rapid.T, env *ev.Env) Case {
 			}
 		}
 		if st.Op == "mpu" {
-			st.Parts = rapid.SliceOfN(rapid.IntRange(1, 10), 0, 8).Draw(t, "parts")
+			st.Parts = rapid.SliceOfN(rapid.IntRange(1, 10), 0, 5).Draw(t, "parts")
 		}
 		c.Steps = append(c.Steps, st)
 	}
